@@ -81,7 +81,19 @@ func TestCheck(t *testing.T) {
 	var states, transitions int64
 	var mu sync.Mutex
 	noopKinds := map[string]int{} // store/revert transitions per kind of no-op-entry block
-	// Part L (longlived.go) first: it is the small one, and the only one in which reads are operations of the
+	// Part F (finalise.go) first: chains written through the sequencer path (StoreGenesis / Finalise) with every
+	// pair of protocol versions on consecutive blocks. Small and cheap, so it can never be cut by the time budget.
+	fVersions := ev.Pick(r, []string{"", "0.13.2", "0.14.0", "0.14.1"}, []string{"", "0.13.2", "0.13.5", "0.14.0", "0.14.1"})
+	fDepth, fForkDepth := 2, ev.Pick(r, 0, 1)
+	for _, newState := range []bool{false, true} {
+		checkFinalisePath(r, newState, fVersions, fDepth, fForkDepth)
+	}
+	r.Set("finalise_path_versions", fVersions)
+	if os.Getenv("VERIF_C04_ONLY_PART_F") != "" { // development aid: evidence of such a run is not valid
+		r.Incomplete("VERIF_C04_ONLY_PART_F set: only part F ran")
+		r.Finish()
+	}
+	// Part L (longlived.go) next: it is the small one, and the only one in which reads are operations of the
 	// history. Its fork bases are the states of depth <= 1 of the same search (shared alphabet), in both tiers.
 	for _, newState := range []bool{true, false} {
 		for ci, vc := range versionConfigs {
@@ -165,9 +177,12 @@ func TestCheck(t *testing.T) {
 		"X = [x'] or [x', t], Y = y' with x', y' in family(x) = {x, x with other storage values + one more slot, x with the deployed contract's storage dropped/given} (y' = x' included), "+
 		"t in {nonce+1 only, %szero to a never-written slot, real storage write} of the deployed contract%s; read positions = after every store of the branch and after the reverts, masks %s: "+
 		"at a read position the head state's tries (class trie, contract trie, every storage trie: root, leaves, proofs) and plain reads are asked and must equal the answers of a RESTARTED node on the same bytes; "+
-		"after Y the same sweep and the full Reader API must equal the node that stored Y directly", depth, forkDepthLimit,
+		"after Y the same sweep and the full Reader API must equal the node that stored Y directly. "+
+		"Part F (sequencer write path): chains genesis + <=%d blocks written by StoreGenesis/Finalise, every block with any protocol version of %q, genesis kinds {undeclared class, declared Cairo-0, declared Sierra}, "+
+		"block kinds {empty, touch x2, deploy, declare Sierra}: every transition is reverted on a long-lived node (RevertHead must succeed, image must equal the parent state's), "+
+		"from states of depth <=%d the node then goes through every other (kind, version) y: finalise y == direct S.y, revert == S", depth, forkDepthLimit,
 		ev.Pick(r, "from every state whose chain has none, as the last block of the chain (stored, reverted, image compared)", "at most one per chain, at any position"),
-		ev.Pick(r, "", "class replaced only, "), ev.Pick(r, " (quick: x' is x or x with other storage)", " or any block of the shared alphabet"), ev.Pick(r, "{none, all}", "all (second block of the shared alphabet: {none, all})")))
+		ev.Pick(r, "", "class replaced only, "), ev.Pick(r, " (quick: x' is x or x with other storage)", " or any block of the shared alphabet"), ev.Pick(r, "{none, all}", "all (second block of the shared alphabet: {none, all})"), fDepth, fVersions, fForkDepth))
 	r.Finish()
 }
 
